@@ -141,7 +141,7 @@ def run(ctx):
     tree_mismatch = 0
     for k, (i, m) in enumerate(zip(irecs, mrecs)):
         p = base[k // 2]
-        if i.err == "crash":
+        if i.err in ("crash", "skipped"):
             ctx.violation("parser crashed on %r" % p, {"stream": "C15-tree", "input": p})
             continue
         ie = (i.err or "").split(":")[0]
